@@ -174,3 +174,42 @@ def trace_leg(v, acc, scen, pids, env=None, procs=1, timeout=2400, max_rejects=8
         if r.get("ev") in ("pair", "plant") and len(acc.samples) < 6:
             acc.samples.append({k: (x if k != "lmap" else "...") for k, x in r.items()})
     return recs, lines
+
+
+MATCH_THR = {"T50": "0.5", "T70": "0.7", "T80": "0.8", "T100": "1.0"}
+
+
+def match_model(acc, names, timeout=1500):
+    """Leg M on the candidate-stage mechanism spec V2Match (InBounds, PlantIsCandidate)."""
+    for n in names:
+        cfg = "V2Match%sMC.cfg" % n
+        r = tlc_require_ok(tlc("V2Match" + n, cfg, timeout=timeout), "V2Match model check " + cfg)
+        acc.add_tlc(r, cfg, threshold=MATCH_THR[n])
+
+
+def match_replay(v, acc, names, maxk, maxt, sig="stage-replay", timeout=2400):
+    """Leg G on V2Match: every (document, input) pair replayed through the real stage functions."""
+    for n in names:
+        cfg = "V2Match%sGen.cfg" % n
+        gen = tlc("V2Match" + n, cfg, timeout=timeout, files={cfg: cfg_text(cfg, MaxK=maxk, MaxT=maxt)})
+        tlc_require_ok(gen, "V2Match vector generation " + cfg)
+        acc.add_tlc(gen, cfg, threshold=MATCH_THR[n], MaxK=maxk, MaxT=maxt)
+        out = os.path.join(sub("out"), "match.%s.ndjson" % n)
+        if os.path.exists(out):
+            os.remove(out)
+        rc, txt, _ = go_overlay_test("v2", ["common/util_test.go", "v2/match_driver_test.go"], "^TestVerifMatchReplay$", timeout=timeout,
+                                     env={"VERIF_IN": gen.outpath, "VERIF_OUT": out, "VERIF_THR": MATCH_THR[n],
+                                          "VERIF_TABLES": os.path.join(vlib.SPECS, "matchtables.json"), "VERIF_TABNAME": n})
+        recs = read_ndjson(out)
+        if any(r.get("kind") == "tables" for r in recs):
+            raise vlib.Inconclusive("threshold tables of V2Match%s differ from the float expressions evaluated by the driver" % n)
+        summ = [r for r in recs if r.get("kind") == "summary"]
+        if vlib.build_failed(txt) or not summ or summ[0]["vectors"] == 0:
+            raise vlib.Inconclusive("stage replay driver failed (%s):\n%s" % (n, txt[-2500:]))
+        s = summ[0]
+        acc.evaluations += s["vectors"]; acc.nontrivial += s["nontrivial"]
+        acc.extra.setdefault("stage_replay", []).append({"threshold": MATCH_THR[n], "vectors": s["vectors"], "fused_nonempty": s["nontrivial"], "mismatches": s["mismatches"]})
+        acc.samples += [{"threshold": MATCH_THR[n], "vector": x} for x in s.get("samples", [])[:1]]
+        for r in recs:
+            if r.get("kind") == "mismatch":
+                v.fail(sig, {"thr": r["thr"], "why": r["why"], "spec": r["spec"]})
